@@ -291,7 +291,47 @@ func c19Replication(c *h.Ctx, id string, r *rand.Rand) {
 	}
 	var gaps []int
 	sinceSync := 0
+	pubOp := func() {
+		nm := names[r.Intn(len(names))]
+		ann := r.Intn(3) != 0
+		pub.r.VerifLocked(func() {
+			if ann {
+				pub.r.VerifPfx().Announce(nm.Clone())
+			} else {
+				pub.r.VerifPfx().Withdraw(nm.Clone())
+			}
+		})
+	}
 	check := func(when string) bool {
+		if sinceSync > 100 && r.Intn(2) == 0 {
+			// slow snapshot: the reply to the peer's snapshot fetch is produced now but arrives only
+			// after the publisher has logged more operations and the peer has heard about them
+			s.holdPrefixReplies(true)
+			if !s.notifyPrefixSync(0) {
+				c.Inconclusive(s.bad)
+				return false
+			}
+			time.Sleep(2 * time.Millisecond)
+			s.quiesce()
+			for m := 1 + r.Intn(4); m > 0; m-- {
+				pubOp()
+			}
+			if !s.notifyPrefixSync(0) {
+				c.Inconclusive(s.bad)
+				return false
+			}
+			s.holdPrefixReplies(false)
+			n, ok := s.releasePrefixReplies()
+			if !ok {
+				c.Inconclusive(s.bad)
+				return false
+			}
+			if n > 0 {
+				c.Count("stale_snapshots_delivered", int64(n))
+				c.Distinct("replication|stale-snapshot")
+			}
+			when += " (snapshot reply delayed past later operations)"
+		}
 		// peer catches up
 		if !s.notifyPrefixSync(0) {
 			c.Inconclusive(s.bad)
